@@ -22,7 +22,9 @@ import (
 //   tail:     12-byte headers with section-count patterns over {0,1,2,65535}
 //             followed by every short byte string (see Rule);
 //   oversize: a few > 64 KiB inputs whose records re-pack to more than 65535
-//             bytes of RDATA.
+//             bytes of RDATA;
+//   svcparams: raw SVCB/HTTPS records whose SvcParams are every short key
+//             sequence over {0,1,2,65535} in every order, duplicates included.
 // Oracle, for every input: no panic; Message.Unpack, the one-record-at-a-time
 // Parser methods, the typed XHeader+XResource methods and the AllX methods
 // agree on accept/reject, on the error and on the content; wherever a parse
@@ -1112,10 +1114,77 @@ func c37GenOversize(yield func(c37Case) bool) {
 	}
 }
 
+// c37GenSvcParams builds, as raw wire bytes, one-answer messages holding an
+// SVCB (64) or HTTPS (65) record whose SvcParams are every key sequence of
+// length 0..maxLen over keys (in every order, duplicates included: RFC 9460
+// §2.2 wants strictly increasing keys, so both sides of the order comparison
+// are present for every pair of alphabet values, the smallest key 0 and the
+// largest key 65535 among them), each param with every value length in
+// valLens. RDLENGTH is exact, and additionally one less / one more than exact
+// (the latter with one trailing byte present in the message).
+func c37GenSvcParams(thorough bool, yield func(c37Case) bool) {
+	keys := []int{0, 1, 2, 65535}
+	valLens := []int{0, 1}
+	maxLen := 3
+	targets := [][]byte{{0}}
+	if thorough {
+		keys = []int{0, 1, 2, 65534, 65535}
+		maxLen = 4
+		targets = [][]byte{{0}, {1, 'a', 0}}
+	}
+	for _, typ := range []int{64, 65} {
+		for _, tgt := range targets {
+			for n := 0; n <= maxLen; n++ {
+				// idx[i] selects (key, value length) of param i
+				radix := len(keys) * len(valLens)
+				idx := make([]int, n)
+				for {
+					var params []byte
+					var ks, ls []int
+					for i := 0; i < n; i++ {
+						k, l := keys[idx[i]/len(valLens)], valLens[idx[i]%len(valLens)]
+						ks, ls = append(ks, k), append(ls, l)
+						params = append(params, byte(k>>8), byte(k), byte(l>>8), byte(l))
+						for j := 0; j < l; j++ {
+							params = append(params, byte(0xa0+i))
+						}
+					}
+					rd := append([]byte{0, 1}, tgt...) // priority 1, target
+					rd = append(rd, params...)
+					for _, delta := range []int{0, -1, 1} {
+						rl := len(rd) + delta
+						b := []byte{0xab, 0xcd, 0x81, 0x80, 0, 0, 0, 1, 0, 0, 0, 0}
+						b = append(b, 0, 0, byte(typ), 0, 1, 0, 0, 0, 60, byte(rl>>8), byte(rl))
+						b = append(b, rd...)
+						if delta == 1 {
+							b = append(b, 0)
+						}
+						o := fmt.Sprintf("svcparams: type %d target %x keys %v value lengths %v RDLENGTH exact%+d", typ, tgt, ks, ls, delta)
+						if !yield(c37Case{In: b, Origin: o}) {
+							return
+						}
+					}
+					k := n - 1
+					for k >= 0 {
+						if idx[k]++; idx[k] < radix {
+							break
+						}
+						idx[k] = 0
+						k--
+					}
+					if k < 0 {
+						break
+					}
+				}
+			}
+		}
+	}
+}
+
 func TestVerif_C37(t *testing.T) {
 	vx.Run(t, "C37", func(c *vx.Ctx) {
 		th := !c.Quick()
-		c.Rule("parts: mut = every base message (one of each supported record type between a question and a trailing A record that share name suffixes, pointer-to-pointer chains, questions only, empty; the 254-byte name after its own tail; thorough adds more bodies and 2-record sequences), encoded by the harness with and without RFC 1035 compression, then unmodified / truncated at every length / every byte set to {0x00,0xff,0xc0,'.',v+1,v-1} / every compression pointer and every name start redirected to every offset 0..len+1 and 0x3fff / every RDLENGTH and section count set to boundary values; tail = header with every count pattern in {0,1,2,65535}^4 x every tail of <= 1 byte, and 15 one-hot/uniform count patterns x every tail of length 2..5 over {00,01,c0,0c,ff,'.'} (thorough: every 2-byte tail and length 3..6 over {00,01,40,c0,0c,ff,'.'}); namelen = questions whose expanded name has every wire length 250..260, spelled out or ending in a pointer to a 3/12/65/129-byte tail; oversize = 12 inputs > 64 KiB. Per input: Name.unpack/skipName at every offset (first 2048) against a reference name decoder; Unpack vs record-by-record Parser; every interleaving of the 6 per-record operations {full, skip, header+typed, header+skip, header twice+typed, header+full} while their number is <= the cap, else the 6 uniform and 6 rotating assignments; all 16 AllX/SkipAllX combinations; accepted => Pack and Unpack(Pack(m)) == m. non-trivial = at least one record was accepted by the parser")
+		c.Rule("parts: mut = every base message (one of each supported record type between a question and a trailing A record that share name suffixes, pointer-to-pointer chains, questions only, empty; the 254-byte name after its own tail; thorough adds more bodies and 2-record sequences), encoded by the harness with and without RFC 1035 compression, then unmodified / truncated at every length / every byte set to {0x00,0xff,0xc0,'.',v+1,v-1} / every compression pointer and every name start redirected to every offset 0..len+1 and 0x3fff / every RDLENGTH and section count set to boundary values; tail = header with every count pattern in {0,1,2,65535}^4 x every tail of <= 1 byte, and 15 one-hot/uniform count patterns x every tail of length 2..5 over {00,01,c0,0c,ff,'.'} (thorough: every 2-byte tail and length 3..6 over {00,01,40,c0,0c,ff,'.'}); namelen = questions whose expanded name has every wire length 250..260, spelled out or ending in a pointer to a 3/12/65/129-byte tail; oversize = 12 inputs > 64 KiB; svcparams = raw one-answer messages with an SVCB or HTTPS record (priority 1, root target) whose SvcParams are every key sequence of length 0..3 over {0,1,2,65535} in every order including duplicates x every value length in {0,1} per param, with RDLENGTH exact / one short / one long (thorough: length 0..4 over {0,1,2,65534,65535}, targets '.' and 'a.'). Per input: Name.unpack/skipName at every offset (first 2048) against a reference name decoder; Unpack vs record-by-record Parser; every interleaving of the 6 per-record operations {full, skip, header+typed, header+skip, header twice+typed, header+full} while their number is <= the cap, else the 6 uniform and 6 rotating assignments; all 16 AllX/SkipAllX combinations; accepted => Pack and Unpack(Pack(m)) == m. non-trivial = at least one record was accepted by the parser")
 		c.Assume("a Skip method accepting a record that its parse method rejects is allowed (documented for resource headers; skips validate less); the reverse is reported")
 		c.Assume("equality of messages is semantic (nil == empty slices, Name.Data beyond Length ignored) and ignores ResourceHeader.Length, which Pack recomputes; inputs the reference name decoder would reject but Name.unpack also rejects are not compared (the implementation may be stricter, e.g. its 10-pointer limit)")
 		icap := vx.Pick(c, 40, 250)
@@ -1125,5 +1194,6 @@ func TestVerif_C37(t *testing.T) {
 		vx.Enumerate(c, "tail", vx.Opts{}, func(yield func(c37Case) bool) { c37GenTails(th, yield) }, check)
 		vx.Enumerate(c, "namelen", vx.Opts{}, c37GenNameLen, check)
 		vx.Enumerate(c, "oversize", vx.Opts{}, c37GenOversize, check)
+		vx.Enumerate(c, "svcparams", vx.Opts{}, func(yield func(c37Case) bool) { c37GenSvcParams(th, yield) }, check)
 	})
 }
